@@ -335,7 +335,13 @@ pub enum Outcome {
 
 /// Execute a history, feeding every step to the observers. A violation is returned with a trace tail.
 pub fn run_history(h: &History, obs: &mut [&mut dyn Observer]) -> (World, Outcome, R) {
+    run_history_mode(h, obs, true)
+}
+
+/// `strict_close = false`: peer bytes keep arriving after the library requested the close (C05, C19)
+pub fn run_history_mode(h: &History, obs: &mut [&mut dyn Observer], strict_close: bool) -> (World, Outcome, R) {
     let mut w = World::new(h.cfg);
+    w.strict_close = strict_close;
     for op in &h.ops {
         let pre = w.t.clone();
         let pre_app = w.app.clone();
